@@ -23,6 +23,9 @@ class VLoop(asyncio.SelectorEventLoop):
         super().__init__()
         self.epoch_ns = epoch_ns
         self.vns = 0
+        # the loop's monotonic clock may run ahead of the wall clock (NTP slew, clock steps): a timer then fires
+        # `skew_ns` before the wall clock reaches the instant it was armed for
+        self.skew_ns = 0
         self._sync()
 
     def _sync(self) -> None:
@@ -30,6 +33,13 @@ class VLoop(asyncio.SelectorEventLoop):
 
     def time(self) -> float:
         return self.vns / 1e9
+
+    def call_at(self, when, callback, *args, context=None):
+        # a timer of the loop's monotonic clock may fire before the wall clock reaches the instant it was armed for
+        # (clock slew / steps): timers with a delay of more than 2 x skew fire `skew_ns` early
+        if self.skew_ns and (when - self.time()) * 1e9 > 2 * self.skew_ns:
+            when -= self.skew_ns / 1e9
+        return super().call_at(when, callback, *args, context=context)
 
     @property
     def now_ns(self) -> int:
@@ -105,8 +115,9 @@ async def vsleep(loop: VLoop, d_ns: int) -> None:
     await drain(loop)
 
 
-def run_virtual(coro_fn, epoch_ns: int = 1_704_067_200_000_000_000):
+def run_virtual(coro_fn, epoch_ns: int = 1_704_067_200_000_000_000, skew_ns: int = 0):
     loop = VLoop(epoch_ns)
+    loop.skew_ns = skew_ns
     asyncio.set_event_loop(loop)
     try:
         return loop.run_until_complete(coro_fn(loop))
